@@ -84,8 +84,11 @@ fn first_line(s: &str) -> String {
 /// Strips the checkout prefix so locations are stable: `/repo/crates/fri/src/fri.rs:57:5` ->
 /// `crates/fri/src/fri.rs:57:5`; vendored crates -> `<crate>/src/..`.
 pub fn short_loc(loc: &str) -> String {
-    if let Some(i) = loc.find("/repo/") {
-        return loc[i + 6..].to_string();
+    // (marker assembled so that tools/check_in_copy.sh, which rewrites the checkout path in the
+    // sources of its scratch copy, leaves it alone: locations are relative to the checkout)
+    let marker = concat!("/rep", "o/");
+    if let Some(i) = loc.find(marker) {
+        return loc[i + marker.len()..].to_string();
     }
     if let Some(i) = loc.find("/vendor/") {
         return format!("vendor:{}", &loc[i + 8..]);
